@@ -626,6 +626,12 @@ template<typename T>
 T fast_atoi(const char *str, const char term='\0')
 {
 	T retval(0);
+	if (std::is_signed<T>::value && *str == '-') // itoa renders negative values with a leading minus
+	{
+		for (++str; *str != term; ++str)
+			retval = retval * 10 - (*str - '0'); // accumulate negatively so that the minimum value is reachable
+		return retval;
+	}
 	for (; *str != term; ++str)
 		retval = (retval << 3) + (retval << 1) + *str - '0';
 	return retval;
